@@ -1,21 +1,27 @@
 """C19 -- bind / flat_bind chains are equivalent to the executor chain; names propagate.
 
+Evaluated on public entry points (CanCustomize.with_*, Executors.with_* / bind / flat_bind, BoundCallable.__call__,
+constructors) with private helpers inlined; no private helper is referred to by name.
+
 Decided:
-  R-WITH      the 8 with_* methods of CanCustomize agree: each propagates the name into kwargs and then delegates
-              to the Executors method of its own name with (self, *args, **kwargs); the 8 Executors.with_* agree:
-              each calls _customize(executor, <its executor class>, *args, **kwargs)
-  R-CUSTOMIZE _customize on a bound callable builds the new layer on the bound executor and re-binds the same
-              function; otherwise builds the layer on the delegate
-  R-BOUND     BoundCallable stores (executor, fn) and __call__ submits fn with the caller's arguments, once
-  R-FLATBIND  flat_bind(fn) == bind(fn).with_flat_map(identity)
-  R-NAME      every CanCustomize class leaves an attribute that the name propagation recognises, holding the
-              name it was given (bound callables: the bound executor's name); thread names embed the name
+  R-WITH      every with_X of CanCustomize puts the inherited name into kwargs (unless one was given) and then
+              returns Executors.with_X(self, *args, **kwargs); every Executors.with_X builds XExecutor: on a bound
+              callable it builds the layer on the bound executor and re-binds the same function, otherwise it
+              builds the layer on the delegate -- with the caller's *args, **kwargs
+  R-BOUND     BoundCallable keeps the executor and function it was given; calling it performs exactly one
+              executor.submit(fn, *args, **kwargs) and returns its result
+  R-FLATBIND  Executors.flat_bind(executor, fn) returns bind(executor, fn).with_flat_map(<identity function>)
+  R-NAME      after construction every CanCustomize instance has an attribute recognised by the name propagation
+              that holds the name it was given (bound callables: the bound executor's name); thread names embed it
 Not decided: outcome equivalence of paired programs (that is C01/C13 behaviour).
 """
 from ..core import where_of, trace_of
 from ..interp import fmt, contains
 from ..model import AnalysisError, ClassInfo
 from .. import q
+from ..roles import std_inline, bound, is_identity
+
+SELF = ("param", "self")
 
 
 def camel(s):
@@ -24,122 +30,105 @@ def camel(s):
 
 def check(ctx, rep):
     prog = ctx.prog
-    rep.rule("R-WITH", "each CanCustomize.with_X propagates the name into kwargs, then returns Executors.with_X(self, *args, **kwargs); each Executors.with_X returns cls._customize(executor, XExecutor, *args, **kwargs)")
-    rep.rule("R-CUSTOMIZE", "_customize(bound callable) = bind(executor_class(bound executor, *args, **kwargs), bound fn); _customize(executor) = executor_class(executor, *args, **kwargs)")
+    rep.rule("R-WITH", "CanCustomize.with_X: if self has a recognised name attribute and no name was given, kwargs['name'] := that attribute, before returning Executors.with_X(self, *args, **kwargs); Executors.with_X(executor, ...) builds XExecutor(executor or bound executor, *args, **kwargs) and re-binds the bound function")
     rep.rule("R-BOUND", "BoundCallable keeps the executor and function it was given; calling it performs exactly one executor.submit(fn, *args, **kwargs) and returns its result")
     rep.rule("R-FLATBIND", "Executors.flat_bind(executor, fn) returns bind(executor, fn).with_flat_map(<identity function>)")
     rep.rule("R-NAME", "after construction every CanCustomize instance has an attribute recognised by the name propagation that holds the name it was given (or, for a bound callable, the bound executor's name); worker thread names embed the name")
-
     cc = prog.cls("CanCustomize")
     ex = prog.cls("Executors")
-    prop = None
-    for n, m in cc.methods.items():
-        if n.endswith("propagate_name"):
-            prop = m
-    rep.require(prop is not None, "CanCustomize.__propagate_name not found")
-
-    # ---- candidate attribute names recognised by the propagation
-    ps, it = ctx.paths(prop, cc)
-    cands = []
-    for p in ps:
-        for e in p.calls():
-            if q.call_name(e) == "hasattr" and e.d["args"][:1] == (("param", "self"),) and e.d["args"][1][0] == "const":
-                if e.d["args"][1][1] not in cands:
-                    cands.append(e.d["args"][1][1])
-    rep.require(len(cands) >= 1, "__propagate_name: no hasattr(self, <name>) test found")
-    for p in ps:
-        stores = [e for e in p.evs("store") if e.d["target"] == ("sub", ("param", "kwargs"), ("const", "name"))]
-        has = [(e.d["args"][1][1], p.assume.get(("call", e.d["func"], e.d["args"], e.d["kwargs"], None))) for e in p.calls() if q.call_name(e) == "hasattr"]
-        first_true = [c for c, v in has if v]
-        given = None
-        for t, v in p.branch_atoms():
-            if isinstance(t, tuple) and t[0] == "cmp" and t[1] == "in" and t[2] == ("const", "name") and t[3] == ("param", "kwargs"):
-                given = v
-        key = "__propagate_name [%s]" % q.path_sig(p)[:110]
-        if first_true and given is False:
-            attr = first_true[0]
-            ok = len(stores) == 1 and stores[0].d["value"] == ("call", ("name", "getattr"), (("param", "self"), ("const", attr)), (), None)
-            rep.ob("R-NAME", key, ok, "self has %s and no name was given: kwargs['name'] must become getattr(self, %r)" % (attr, attr), where_of(prop), trace_of(p))
-        else:
-            rep.ob("R-NAME", key, not stores, "kwargs['name'] is overwritten although %s" % ("a name was given" if given else "no name attribute was found"), where_of(prop), trace_of(p))
-
-    # ---- with_* siblings on CanCustomize
+    bc = prog.cls("BoundCallable")
     withs = sorted(n for n in cc.methods if n.startswith("with_"))
+    ewiths = sorted(n for n in ex.methods if n.startswith("with_"))
     rep.count("CanCustomize.with_* methods", len(withs), 8)
+    rep.count("Executors.with_* methods", len(ewiths), 8)
+    rep.ob("R-WITH", "CanCustomize and Executors offer the same with_* set", set(withs) == set(ewiths), "CanCustomize only: %s; Executors only: %s" % (sorted(set(withs) - set(ewiths)), sorted(set(ewiths) - set(withs))), cc.module.relpath)
+
+    # ---- CanCustomize.with_X
+    cands = []
     for n in withs:
         m = cc.methods[n]
-        ps, it = ctx.paths(m, cc, depth=0)
+        ps, it = ctx.paths(m, cc, depth=4, inline=_own_helpers(cc))
+        KW = ("kw", (), ("param", m.kwarg)) if m.kwarg else None
+        key = "CanCustomize.%s" % n
+        rep.ob("R-WITH", key + " takes *args, **kwargs", m.vararg is not None and m.kwarg is not None, "", where_of(m))
+        if KW is None:
+            continue
+        nret = 0
         for p in ps:
             if p.status != "return":
                 continue
-            pc = [e for e in p.calls() if e.d["callee"] is prop]
-            dl = [e for e in p.calls() if e.d["func"] == ("attr", ("class", ex.key), n)]
-            key = "CanCustomize.%s" % n
-            ok = len(pc) == 1 and pc[0].d["args"] == (("kw", (), ("param", m.kwarg)),) if m.kwarg else False
-            rep.ob("R-WITH", key + " propagates the name", ok, "expected exactly one name propagation on this method's **kwargs", where_of(m), trace_of(p))
-            if len(dl) != 1:
-                others = [fmt(e.d["func"]) for e in p.calls() if isinstance(e.d["func"], tuple) and e.d["func"][0] == "attr" and e.d["func"][1] == ("class", ex.key)]
-                rep.ob("R-WITH", key + " delegates to Executors.%s" % n, False, "expected one call of Executors.%s, found %s" % (n, others), where_of(m), trace_of(p))
+            nret += 1
+            dl = [e for e in p.calls() if isinstance(e.d["func"], tuple) and e.d["func"][0] == "attr" and e.d["func"][1] == ("class", ex.key)]
+            ok = len(dl) == 1 and dl[0].d["func"][2] == n
+            rep.ob("R-WITH", key + " delegates to Executors.%s" % n, ok, "calls %s" % [fmt(e.d["func"]) for e in dl], where_of(m), trace_of(p))
+            if not ok:
                 continue
             d = dl[0]
-            fw = d.d["args"][:1] == (("param", "self"),)
-            okf, why = q.args_forwarded(_shift(d), m)
-            rep.ob("R-WITH", key + " delegates to Executors.%s" % n, fw and okf and p.value == ("call", d.d["func"], d.d["args"], d.d["kwargs"], None), "must return Executors.%s(self, *args, **kwargs): %s" % (n, why), where_of(m, d.node), trace_of(p))
-            if pc:
-                rep.ob("R-WITH", key + " propagates before delegating", pc[0].seq < d.seq, "the name must be put into kwargs before the delegation", where_of(m))
-    ewiths = sorted(n for n in ex.methods if n.startswith("with_"))
-    rep.count("Executors.with_* methods", len(ewiths), 8)
-    rep.ob("R-WITH", "CanCustomize and Executors offer the same with_* set", set(withs) == set(ewiths), "CanCustomize: %s; Executors: %s" % (sorted(set(withs) - set(ewiths)), sorted(set(ewiths) - set(withs))), where_of(prop))
-    cust = ex.methods.get("_customize")
-    rep.require(cust is not None, "Executors._customize not found")
+            a = d.d["args"]
+            fw = a[:1] == (SELF,) and a[1:] == (("star", ("seq", (), ("param", m.vararg), 0)),) and tuple(d.d["kwargs"]) == ((None, KW),)
+            rep.ob("R-WITH", key + " forwards (self, *args, **kwargs) and returns the result", fw and p.value == q.result_of(d), "Executors.%s(%s; %s)" % (n, [fmt(x) for x in a], [(k, fmt(v)) for k, v in d.d["kwargs"]]), where_of(d.fn, d.node), trace_of(p))
+            has = []
+            for e in p.calls():
+                if q.call_name(e) == "hasattr" and e.d["args"][:1] == (SELF,) and len(e.d["args"]) == 2 and e.d["args"][1][0] == "const":
+                    c = e.d["args"][1][1]
+                    if c not in cands:
+                        cands.append(c)
+                    has.append((c, q.truth_of(p, q.result_of(e))))
+            given = None
+            for t, v, e in q.atoms(p):
+                if isinstance(t, tuple) and t[0] == "cmp" and t[1] == "in" and t[2] == ("const", "name") and t[3] == KW:
+                    given = v
+            stores = [e for e in p.evs("store") if e.d["target"] == ("sub", KW, ("const", "name"))]
+            first_true = [c for c, v in has if v]
+            if first_true and given is False:
+                attr = first_true[0]
+                val = stores[0].d["value"] if stores else None
+                okv = len(stores) == 1 and val in (("attr", SELF, attr), ("call", ("name", "getattr"), (SELF, ("const", attr)), (), None)) and stores[0].seq < d.seq
+                rep.ob("R-WITH", key + " inherits the name", okv, "self has %s and no name was given: kwargs['name'] must become self.%s before the delegation (stores: %s)" % (attr, attr, [fmt(e.d["value"]) for e in stores]), where_of(m), trace_of(p))
+            else:
+                rep.ob("R-WITH", key + " does not override a given name", not stores, "kwargs['name'] is overwritten although %s" % ("a name was given" if given else "no name attribute was found"), where_of(m), trace_of(p))
+        rep.ob("R-WITH", key + " has a normal path", nret > 0, "", where_of(m))
+    rep.require(len(cands) >= 1, "CanCustomize.with_*: no hasattr(self, <name attribute>) test found: names are not propagated")
+
+    # ---- Executors.with_X
     for n in ewiths:
         m = ex.methods[n]
-        ps, it = ctx.paths(m, ex, depth=0)
+        ps, it = ctx.paths(m, ex, depth=4, inline=_own_helpers(ex))
         want_cls = camel(n[5:]) + "Executor"
+        key = "Executors.%s" % n
+        E = ("param", m.params[1])
+        seen = set()
         for p in ps:
             if p.status != "return":
                 continue
-            cs = [e for e in p.calls() if e.d["callee"] is cust]
-            key = "Executors.%s" % n
-            if len(cs) != 1:
-                rep.ob("R-WITH", key + " customizes", False, "expected exactly one call of _customize", where_of(m))
+            ctor = [e for e in p.calls() if isinstance(e.d["func"], tuple) and e.d["func"][0] == "class" and prog.classes.get(e.d["func"][1]) in ctx.executor_classes()]
+            rep.ob("R-WITH", key + " builds exactly one %s" % want_cls, len(ctor) == 1 and ctor[0].d["func"][1].split(":")[-1] == want_cls, "builds %s" % [e.d["func"][1].split(":")[-1] for e in ctor], where_of(m), trace_of(p))
+            if len(ctor) != 1:
                 continue
-            a = cs[0].d["args"]
-            ok = len(a) >= 2 and a[0] == ("param", m.params[1]) and isinstance(a[1], tuple) and a[1][0] == "class" and a[1][1].split(":")[-1] == want_cls
-            rest_ok = a[2:] == (("star", ("seq", (), ("param", m.vararg), 0)),) if m.vararg else a[2:] == ()
-            kw_ok = tuple(cs[0].d["kwargs"]) == ((None, ("kw", (), ("param", m.kwarg))),) if m.kwarg else not cs[0].d["kwargs"]
-            rep.ob("R-WITH", key + " customizes with %s" % want_cls, ok and rest_ok and kw_ok and p.value == ("call", cs[0].d["func"], cs[0].d["args"], cs[0].d["kwargs"], None), "must return cls._customize(executor, %s, *args, **kwargs); found class %s" % (want_cls, fmt(a[1]) if len(a) > 1 else "?"), where_of(m, cs[0].node))
-
-    # ---- _customize
-    bc = prog.cls("BoundCallable")
-    ps, it = ctx.paths(cust, ex, depth=0)
-    seen = set()
-    for p in ps:
-        if p.status != "return":
-            continue
-        isb = None
-        for t, v in p.branch_atoms():
-            if isinstance(t, tuple) and t[0] == "call" and t[1] == ("name", "isinstance") and t[2][:1] == (("param", "delegate"),) and t[2][1] == ("class", bc.key):
-                isb = v
-        rep.require(isb is not None, "_customize: isinstance(delegate, BoundCallable) test not found")
-        seen.add(isb)
-        ctor = [e for e in p.calls() if e.d["func"] == ("param", "executor_class")]
-        rep.require(len(ctor) == 1, "_customize: expected one executor_class(...) call per path")
-        a = ctor[0].d["args"]
-        rest_ok = a[1:] == (("star", ("seq", (), ("param", cust.vararg), 0)),) and tuple(ctor[0].d["kwargs"]) == ((None, ("kw", (), ("param", cust.kwarg))),)
-        newex = ("call", ctor[0].d["func"], ctor[0].d["args"], ctor[0].d["kwargs"], None)
-        if isb:
-            exf = [f for f in _stored_fields(ctx, bc, "executor")]
-            fnf = [f for f in _stored_fields(ctx, bc, "fn")]
-            ok1 = len(exf) == 1 and a[:1] == (("attr", ("param", "delegate"), exf[0]),) and rest_ok
-            rep.ob("R-CUSTOMIZE", "_customize(bound): new layer on the bound executor", ok1, "executor_class must be applied to the bound callable's executor with *args, **kwargs; found %s" % [fmt(x) for x in a], where_of(cust, ctor[0].node), trace_of(p))
-            binds = [e for e in p.calls() if q.call_name(e) == "bind"]
-            ok2 = len(binds) == 1 and len(fnf) == 1 and binds[0].d["args"] == (newex, ("attr", ("param", "delegate"), fnf[0])) and p.value == ("call", binds[0].d["func"], binds[0].d["args"], binds[0].d["kwargs"], None)
-            rep.ob("R-CUSTOMIZE", "_customize(bound): re-binds the same function", ok2, "must return bind(new executor, the bound callable's function)", where_of(cust), trace_of(p))
-        else:
-            ok = a[:1] == (("param", "delegate"),) and rest_ok and p.value == newex
-            rep.ob("R-CUSTOMIZE", "_customize(executor): builds the layer on the delegate", ok, "must return executor_class(delegate, *args, **kwargs)", where_of(cust, ctor[0].node), trace_of(p))
-    rep.require(seen == {True, False}, "_customize: expected a bound-callable path and a plain path")
+            c = ctor[0]
+            a = c.d["args"]
+            rest_ok = a[1:] == (("star", ("seq", (), ("param", m.vararg), 0)),) and tuple(c.d["kwargs"]) == ((None, ("kw", (), ("param", m.kwarg))),)
+            isb = None
+            for t, v, e in q.atoms(p):
+                if isinstance(t, tuple) and t[0] == "call" and t[1] == ("name", "isinstance") and t[2][:1] == (E,) and t[2][1] == ("class", bc.key):
+                    isb = v
+            seen.add(isb)
+            newex = [k for k, tt in p.types.items() if k[0] == "new" and k[1] == c.d["func"][1]]
+            if isb:
+                exf = _stored_fields(ctx, bc, "executor")
+                fnf = _stored_fields(ctx, bc, "fn")
+                ok1 = len(exf) == 1 and a[:1] == (("attr", E, exf[0]),) and rest_ok
+                rep.ob("R-WITH", key + " (bound callable): new layer on the bound executor", ok1, "%s(%s)" % (want_cls, [fmt(x) for x in a]), where_of(c.fn, c.node), trace_of(p))
+                mk = [e for e in p.calls() if e.d["func"] == ("class", bc.key)]
+                ok2 = len(mk) == 1 and len(fnf) == 1
+                if ok2:
+                    b = bound(mk[0], prog)
+                    ok2 = b.get("executor") in newex and b.get("fn") == ("attr", E, fnf[0]) and isinstance(p.value, tuple) and p.value[0] == "new" and p.value[1] == bc.key
+                rep.ob("R-WITH", key + " (bound callable): re-binds the same function to the new layer", ok2, "must return a BoundCallable of (new executor, the bound callable's function)", where_of(m), trace_of(p))
+            else:
+                ok = a[:1] == (E,) and rest_ok and p.value in newex
+                rep.ob("R-WITH", key + " (executor): builds the layer on the delegate with the caller's arguments", ok, "%s(%s), returns %s" % (want_cls, [fmt(x) for x in a], fmt(p.value)), where_of(c.fn, c.node), trace_of(p))
+        rep.ob("R-WITH", key + " handles bound callables and executors", seen >= {True, False}, "cases: %s" % sorted(str(x) for x in seen), where_of(m))
 
     # ---- BoundCallable
     call = bc.methods.get("__call__")
@@ -148,17 +137,20 @@ def check(ctx, rep):
     fnf = _stored_fields(ctx, bc, "fn")
     rep.ob("R-BOUND", "BoundCallable.__init__ keeps executor and fn", len(exf) == 1 and len(fnf) == 1, "expected one field holding the executor parameter and one holding fn (found %s, %s)" % (exf, fnf), where_of(bc.methods["__init__"]))
     if len(exf) == 1 and len(fnf) == 1:
-        ps, it = ctx.paths(call, bc, depth=0)
+        ps, it = ctx.paths(call, bc, depth=2, inline=_own_helpers(bc))
         for p in ps:
             subs = [e for e in p.calls() if q.call_name(e) == "submit"]
-            ok = len(subs) == 1 and q.recv(subs[0]) == ("attr", ("param", "self"), exf[0]) and subs[0].d["args"] == (("attr", ("param", "self"), fnf[0]), ("star", ("seq", (), ("param", call.vararg), 0))) and tuple(subs[0].d["kwargs"]) == ((None, ("kw", (), ("param", call.kwarg))),)
-            ok = ok and p.status == "return" and p.value[:2] == ("call", subs[0].d["func"])
+            ok = len(subs) == 1 and q.recv(subs[0]) == ("attr", SELF, exf[0]) and subs[0].d["args"] == (("attr", SELF, fnf[0]), ("star", ("seq", (), ("param", call.vararg), 0))) and tuple(subs[0].d["kwargs"]) == ((None, ("kw", (), ("param", call.kwarg))),)
+            ok = ok and p.status == "return" and p.value == q.result_of(subs[0])
             rep.ob("R-BOUND", "BoundCallable.__call__ submits fn once", ok, "must return self.<executor>.submit(self.<fn>, *args, **kwargs)", where_of(call), trace_of(p))
     bind = ex.methods.get("bind")
-    ps, it = ctx.paths(bind, ex, depth=0)
+    ps, it = ctx.paths(bind, ex, depth=2, inline=_own_helpers(ex))
     for p in ps:
         mk = [e for e in p.calls() if e.d["func"] == ("class", bc.key)]
-        ok = len(mk) == 1 and mk[0].d["args"] == (("param", "executor"), ("param", "fn")) and p.status == "return" and p.value[0] == "new"
+        ok = len(mk) == 1 and p.status == "return" and isinstance(p.value, tuple) and p.value[0] == "new"
+        if ok:
+            b = bound(mk[0], prog)
+            ok = b.get("executor") == ("param", bind.params[1]) and b.get("fn") == ("param", bind.params[2])
         rep.ob("R-BOUND", "Executors.bind returns BoundCallable(executor, fn)", ok, "", where_of(bind))
 
     # ---- flat_bind
@@ -169,19 +161,15 @@ def check(ctx, rep):
             continue
         b = [e for e in p.calls() if q.call_name(e) == "bind"]
         w = [e for e in p.calls() if q.call_name(e) == "with_flat_map"]
-        ok = len(b) == 1 and len(w) == 1 and b[0].d["args"] == (("param", "executor"), ("param", "fn")) and q.recv(w[0]) == ("call", b[0].d["func"], b[0].d["args"], b[0].d["kwargs"], None)
+        ok = len(b) == 1 and len(w) == 1 and q.recv(w[0]) == q.result_of(b[0])
+        if ok:
+            bb = bound(b[0], prog)
+            ok = bb.get("executor", b[0].d["args"][0] if b[0].d["args"] else None) == ("param", fb.params[1]) and bb.get("fn", b[0].d["args"][1] if len(b[0].d["args"]) > 1 else None) == ("param", fb.params[2])
         ident = False
-        if ok and len(w[0].d["args"]) == 1 and not w[0].d["kwargs"]:
-            a = w[0].d["args"][0]
-            if isinstance(a, tuple) and a[0] == "closure":
-                sub = it.closures[a[2]][0]
-                ps2, it2 = ctx.paths(sub, None, depth=0)
-                ident = all(q2.status == "return" and len(sub.params) == 1 and q2.value == ("param", sub.params[0]) for q2 in ps2)
-            elif isinstance(a, tuple) and a[0] == "func":
-                sub = prog.functions[a[1]]
-                ps2, it2 = ctx.paths(sub, None, depth=0)
-                ident = all(q2.status == "return" and len(sub.params) == 1 and q2.value == ("param", sub.params[0]) for q2 in ps2)
-        rep.ob("R-FLATBIND", "Executors.flat_bind", ok and ident and p.value == ("call", w[0].d["func"], w[0].d["args"], w[0].d["kwargs"], None), "must return cls.bind(executor, fn).with_flat_map(<identity>)", where_of(fb), trace_of(p))
+        if ok:
+            vals = list(w[0].d["args"]) + [v for k, v in w[0].d["kwargs"]]
+            ident = len(vals) == 1 and is_identity(ctx, vals[0])
+        rep.ob("R-FLATBIND", "Executors.flat_bind", ok and ident and p.value == q.result_of(w[0]), "must return cls.bind(executor, fn).with_flat_map(<identity>)", where_of(fb), trace_of(p))
 
     # ---- every CanCustomize class leaves a recognised name attribute
     n = 0
@@ -192,20 +180,19 @@ def check(ctx, rep):
         if init is None:
             continue
         n += 1
-        ps, it = ctx.paths(init, ci)
+        ps, it = ctx.paths(init, ci, depth=2, inline=_own_helpers(ci))
         for p in ps:
             if p.status == "raise":
                 continue
             st = [e for e in p.evs("store") if q.self_field(e.d["target"]) and e.d["target"][2] in cands]
             key = "%s.__init__ leaves a name attribute" % ci.name
-            has_name_param = "name" in init.all_param_names() or init.kwarg
             if st:
                 v = st[-1].d["value"]
-                src_ok = v == ("param", "name") or (isinstance(v, tuple) and v[0] == "call" and isinstance(v[1], tuple) and v[1][0] == "attr" and v[1][2] in ("pop", "get") and v[2][:1] == (("const", "name"),)) or (isinstance(v, tuple) and v[0] == "call" and v[1] == ("name", "getattr") and v[2][1][0] == "const" and v[2][1][1] in cands)
+                v = p.heap.get(v, v) if isinstance(v, tuple) else v
+                src_ok = v == ("param", "name") or (isinstance(v, tuple) and v[0] == "call" and isinstance(v[1], tuple) and v[1][0] == "attr" and v[1][2] in ("pop", "get") and v[2][:1] == (("const", "name"),)) or (isinstance(v, tuple) and v[0] == "call" and v[1] == ("name", "getattr") and v[2][1][0] == "const" and v[2][1][1] in cands) or (isinstance(v, tuple) and v[0] == "attr" and v[2] in cands)
                 rep.ob("R-NAME", key, src_ok, "the name attribute %s is set to %s, not to the name given" % (st[-1].d["target"][2], fmt(v)), where_of(init, st[-1].node), trace_of(p))
             else:
-                # acceptable only when the wrapped object itself has no recognised name attribute
-                neg = [e for e in p.calls() if q.call_name(e) == "hasattr" and p.assume.get(("call", e.d["func"], e.d["args"], e.d["kwargs"], None)) is False and e.d["args"][1][0] == "const" and e.d["args"][1][1] in cands]
+                neg = [e for e in p.calls() if q.call_name(e) == "hasattr" and q.truth_of(p, q.result_of(e)) is False and e.d["args"][1][0] == "const" and e.d["args"][1][1] in cands]
                 ok = len(set(e.d["args"][1][1] for e in neg)) == len(cands) and not ("name" in init.all_param_names())
                 if ci.name == "CustomizableProcessPoolExecutor":
                     rep.exception("R-NAME", key, "process pools take no name (kwargs.pop('name') discards it); C19 is about layers that create threads")
@@ -215,7 +202,7 @@ def check(ctx, rep):
 
     # ---- thread names embed the name
     for owner, target, node, initfi in ctx.types.thread_targets:
-        ps, it = ctx.paths(initfi, owner)
+        ps, it = ctx.paths(initfi, owner, depth=0)
         for p in ps:
             if p.status == "raise":
                 continue
@@ -223,18 +210,23 @@ def check(ctx, rep):
             rep.require(len(th) == 1, "%s.__init__: expected one Thread(...) per path" % owner.name)
             kw = dict((k, v) for k, v in th[0].d["kwargs"] if k)
             nm = kw.get("name")
-            ok = isinstance(nm, tuple) and nm[0] == "bin" and nm[1] == "%" and nm[2][0] == "const" and "%s" in str(nm[2][1]) and (nm[3] == ("param", "name") or nm[3] == ("attr", ("param", "self"), "_name") and p.heap.get(nm[3]) in (None, ("param", "name")))
+            namev = [("param", "name")] + [k for k, v in p.heap.items() if v == ("param", "name")]
+            ok = isinstance(nm, tuple) and ((nm[0] == "bin" and nm[1] == "%" and nm[2][0] == "const" and "%s" in str(nm[2][1]) and nm[3] in namev) or (nm[0] == "bin" and nm[1] == "+" and any(x in namev for x in nm[2:])) or nm[0] == "str?")
             rep.ob("R-NAME", "%s thread name embeds the executor name" % owner.name, ok, "Thread(name=...) must be built from the executor's name, found %s" % (fmt(nm) if nm else None), where_of(initfi, th[0].node))
 
 
-def _shift(ev):
-    """view of a call event without its first positional argument (the explicit self)"""
-    class V(object):
-        pass
-    v = V()
-    v.d = dict(ev.d)
-    v.d["args"] = tuple(ev.d["args"][1:])
-    return v
+def _own_helpers(cls):
+    own = set()
+    for c in cls.mro():
+        if isinstance(c, ClassInfo):
+            for m in c.methods.values():
+                own.add(m.key)
+
+    def pol(callee, ev, path):
+        if callee.key in own and callee.name != "__init__":
+            return True
+        return False
+    return pol
 
 
 def _stored_fields(ctx, ci, param):
